@@ -200,3 +200,18 @@ Proof.
   cbn. unfold utf16_enc. destruct (u16_enc_body s) as [b'|]; cbn; [|discriminate].
   intros [= <-]. unfold utf16_fdec, fdec_of_dec. now intros ->.
 Qed.
+
+(* for an encoding without byte-order mark -- the modelled utf-8, latin-1 and ascii -- the FULL
+   statement holds: a named file receives exactly the to_bytes bytes, for every plug-in and
+   every data, also when the writer writes nothing *)
+Lemma write_file_writes_to_bytes_bomless wd ws cd u d :
+  enc cd [] = Some [] ->
+  write_file wd ws cd u d WOpened = (do b <- to_bytes wd ws cd u d; Ok (None, Some (SBytes b))).
+Proof. intros H. apply write_file_writes_to_bytes_partial. intros _ _. exact H. Qed.
+Lemma write_file_writes_to_bytes_modelled wd ws n u d :
+  n <> 3%N ->
+  write_file wd ws (codec_of n) u d WOpened = (do b <- to_bytes wd ws (codec_of n) u d; Ok (None, Some (SBytes b))).
+Proof.
+  intros N. apply write_file_writes_to_bytes_bomless.
+  unfold codec_of. destruct n as [|[[[]|[]|]|[[]|[]|]|]]; try reflexivity. congruence.
+Qed.
